@@ -249,7 +249,7 @@ package vnet
 //@ ghost global fwdItem map[mathint]mathint
 //@ ghost global fwdIdx map[mathint]mathint
 //@ pure dfLog(k mathint, nic mathint, idx mathint) bool = fwdNIC[k] == nic && fwdIdx[k] == idx &&
-//@        fwdChunk[k] == ref(box(fwdItem[k], timedChunk).Chunk) && box(fwdItem[k], timedChunk).deadline < fwdTick[k]
+//@        fwdChunk[k] == ref(box(fwdItem[k], timedChunk).Chunk) && box(fwdItem[k], timedChunk).deadline <= fwdTick[k]
 //@ func (f *DelayFilter) Run(ctx context.Context)
 //@   role consumer
 //@   requires ctx != nil && f.queue != nil && f.NIC != nil
